@@ -28,13 +28,13 @@ describe(
 )
 
 
-@obligation("C03-L1", "parse_uri returns (owner of the matched key, input minus exactly the matched key); reverse_prefix_map/trie roles", floor=9)
+@obligation("C03-L1", "parse_uri returns (owner of the matched key, input minus exactly the matched key); reverse_prefix_map/trie roles", floor=5)
 def l1(cx: Cx, ob: Ob) -> None:
     check_remainder(cx, ob)
     check_table_roles(cx, ob, ["reverse_prefix_map", "trie"])
 
 
-@obligation("C03-L2", "expand of P.d.i returns prefix_map[P] + i with i untouched; prefix_map/synonym_to_prefix roles", floor=10)
+@obligation("C03-L2", "expand of P.d.i returns prefix_map[P] + i with i untouched; prefix_map/synonym_to_prefix roles", floor=6)
 def l2(cx: Cx, ob: Ob) -> None:
     check_parse_curie_flow(cx, ob)
     check_expand_reference(cx, ob)
